@@ -880,7 +880,7 @@ struct TreeGen {
             v.push_back({expr(depth - 1), boolTrue});
             return piecewise(v);
         }
-        if (k < 99 && !c_mode)
+        if (k < 99)
             return unevaluated_expr(expr(depth - 1));
         // a relational / boolean used as a number (result 0/1)
         if (!c_mode)
